@@ -136,6 +136,10 @@ type iface struct {
 	typ       []string
 	nulldef   []bool // `default:` written with a null value
 	noOutputs bool   // reusable workflow without an `outputs:` section
+	// reusable workflow: `required:` of the input / of the secret is given by a ${{ }} placeholder
+	// (the workflow parser accepts that wherever a boolean is expected)
+	reqExpr    []bool
+	secReqExpr bool
 }
 
 var namePool = []string{"alpha", "Beta", "gamma", "delta", "Epsilon", "zeta"}
@@ -150,7 +154,9 @@ func genIface(r *hx.Rng) iface {
 		f.def = append(f.def, r.Chance(1, 3))
 		f.typ = append(f.typ, []string{"string", "number", "boolean"}[r.Intn(3)])
 		f.nulldef = append(f.nulldef, r.Chance(1, 4))
+		f.reqExpr = append(f.reqExpr, r.Chance(1, 6))
 	}
+	f.secReqExpr = r.Chance(1, 6)
 	f.noOutputs = r.Chance(1, 3)
 	return f
 }
@@ -172,7 +178,11 @@ func (f iface) calleeYAML() string {
 	var b strings.Builder
 	b.WriteString("on:\n  workflow_call:\n    inputs:\n")
 	for i, n := range f.names {
-		fmt.Fprintf(&b, "      %s:\n        type: %s\n        required: %v\n", n, f.typ[i], f.req[i])
+		req := fmt.Sprint(f.req[i])
+		if f.reqExpr != nil && f.reqExpr[i] {
+			req = "${{ github.event_name == 'push' }}"
+		}
+		fmt.Fprintf(&b, "      %s:\n        type: %s\n        required: %s\n", n, f.typ[i], req)
 		if f.nulldef != nil && f.nulldef[i] {
 			b.WriteString("        default:" + []string{"", " null", " ~", " !!null ''"}[(i+len(n))%4] + "\n")
 		} else if f.def[i] {
@@ -186,7 +196,11 @@ func (f iface) calleeYAML() string {
 			}
 		}
 	}
-	b.WriteString("    secrets:\n      tok:\n        required: true\n")
+	if f.secReqExpr {
+		b.WriteString("    secrets:\n      tok:\n        required: ${{ true }}\n")
+	} else {
+		b.WriteString("    secrets:\n      tok:\n        required: true\n")
+	}
 	if !f.noOutputs {
 		b.WriteString("    outputs:\n      res:\n        value: ${{ jobs.j.outputs.o }}\n")
 	}
